@@ -146,6 +146,20 @@ def stacked(c, gname):
     vec = np.concatenate([vals[n] for n in J.get_parameter_names()])
     c.eq('stacked_view_same_number', S.logd(vec), spec)
     c.holds('stacked_dim_is_sum', S.dim == sum(len(v) for v in vals.values()))
+    # the stacked view of a joint in which some variables are already fixed (any single variable that leaves at least two free ones and
+    # keeps the joint a joint): "fix, then stack" and "stack, then evaluate" see the same number - the contribution of every fixed variable included
+    names = J.get_parameter_names()
+    for fx in names:
+        try:
+            Jf = J(**{fx: vals[fx]})
+            if not isinstance(Jf, JointDistribution) or len(Jf.get_parameter_names()) < 2: continue
+            free = Jf.get_parameter_names()
+            Sf = Jf._as_stacked(); got = Sf.logd(np.concatenate([vals[n] for n in free])); dim = Sf.dim
+        except TypeError as e:
+            if 'Inconsistent distribution geometry' in str(e): continue      # a generic factor whose resolved parameter has another length than its geometry (harness graph)
+            raise
+        c.eq(f'stacked_view_after_fixing_{fx}_same_number', got, spec)
+        c.holds(f'stacked_view_after_fixing_{fx}_dim_is_sum_of_the_free_dims', dim == sum(len(vals[n]) for n in free))
 
 
 def refusals(c, gname='hier3'):
